@@ -118,8 +118,8 @@ Full statement / proved / missing
                          proved part `C17f_subtype_partial`: … unless a function of the interface is re-declared at another
                          type.  Not claimed: "never the reverse" for interfaces (an interface accepts every type that has its
                          functions, descendant or not — that is what an interface is; asserted on the implementation by `@ifacex`).
-* missing altogether: annotations, a function that shares its name with an attribute of its chain (implementation-only streams
-  `@objd`, `@fnover`, `@msg`), Go-reflected objects (`reflectedObject`); the Go-implemented object types are checked on the
+* missing altogether: annotations, `equality` / `serialization` naming a function (implementation-only streams `@objd`, `@msg`;
+  name clashes between functions and attributes / constants ARE modelled: `fnShadow`, `attrShadow`, `memberAttr`), Go-reflected objects (`reflectedObject`); the Go-implemented object types are checked on the
   implementation only (`@goobj`).
 -/
 namespace Pcore.Object
@@ -170,7 +170,7 @@ structure WellFormedDef (env : List OType) (d : Def) : Prop where
   noBoth : d.constants.any (fun c => d.attrs.any (fun a => a.name == c.1)) = false
   /-- every member function is a fresh name or a proper override of an inherited function (trivially true of a definition
       without `functions`) -/
-  funcs : defineFuncs (parentOf env d) d.funcs = .ok ()
+  funcs : defineFuncs (parentOf env d) (d.attrs.map (·.name)) d.funcs = .ok ()
   attrs : ∀ a ∈ d.decls (parentOf env d), AttrDeclOK a
   override : ∀ a ∈ d.decls (parentOf env d), OverrideOK (parentOf env d) a
   equality : ∀ as, defineAttrs (parentOf env d) (d.decls (parentOf env d)) = .ok as →
@@ -374,10 +374,25 @@ theorem C17_get {t : OType} {vs : List Val} {o : Obj} (hw : WF t) (hn : newPos t
   subst ho
   rw [get_pos hw.nodup hw.tailOpt hreq ha, den_get ha]
 
-theorem C17_get_constant {o : Obj} {n : String} {a : Attr} (hf : findAttr o.typ n = some a) (hk : a.kind = .constant)
+/-- (`memberAttr`: the member `Member(n)` finds is the attribute `a` — the nearest attribute of that name, not hidden by a
+    function of the same name at a nearer level; without functions of that name this is `findAttr`) -/
+theorem C17_get_constant {o : Obj} {n : String} {a : Attr} (hf : memberAttr o.typ n = some a) (hk : a.kind = .constant)
     (hp : ∀ b ∈ posAttrs o.typ, b.name ≠ n) : get o n = .ok a.value := by
   unfold get
   simp [nameToPos_none.mpr hp, hf, hk]
+
+/-- without a function of that name anywhere in the chain, `Member` finds what `findAttr` finds -/
+theorem memberAttr_eq_findAttr {t : OType} {n : String} (h : ∀ l ∈ t, l.funcs.any (fun f => f.name == n) = false) :
+    memberAttr t n = findAttr t n := by
+  induction t with
+  | nil => rfl
+  | cons l p ih =>
+    unfold memberAttr findAttr
+    cases l.attrs.find? (fun a => a.name == n) with
+    | some a => rfl
+    | none =>
+      simp only [h l (by simp), Bool.false_eq_true, if_false]
+      exact ih (fun x hx => h x (by simp [hx]))
 
 /-! ### positional and named construction yield equal objects -/
 
@@ -996,8 +1011,9 @@ theorem C17_asg_sound {a b : Ty} (h : asg a b = true) {v : Val} (hv : inst b v =
 
 theorem assertOverride_asg {parent : OType} {a pa : Attr} (ho : assertOverride parent a = .ok ())
     (hf : findAttr parent a.name = some pa) : asg pa.ty a.ty = true := by
+  have hsh := assertOverride_noShadow ho
   unfold assertOverride at ho
-  simp only [hf] at ho
+  simp only [hsh, Bool.false_eq_true, if_false, hf] at ho
   split at ho
   · cases ho
   · split at ho
@@ -1738,15 +1754,19 @@ theorem C17_get_liskov {ds : List Def} {env : List OType} (h : defineAll [] ds =
     finding C17-type-inithash-constant-undef (`C17_type_inithash_constant_undef`). -/
 def C17_type_inithash : Prop :=
   ∀ (env : List OType) (d : Def) (l : Level) (p : OType), DefShape d → define env d = .ok (l :: p) →
+    (∀ f ∈ l.funcs, ∀ a ∈ l.attrs, a.name = f.name → a.constLike = true) →
     define env (typeDef d.parent l) = .ok ({ l with attrs := reorder l.attrs } :: p)
 
 /-- proved part: … provided no own attribute is a constant of an `Optional[…]` type whose value is undef
     (`attribute.initHash` leaves the `value => undef` of every attribute of an Optional type out; a constant has no
-    implicit value).  Missing: nothing else — the hypothesis `hu` is exactly the finding. -/
+    implicit value).  Missing: nothing else — the hypothesis `hu` is exactly the finding.  (`hfk`, in the full statement
+    too: a function shares its name only with a constant that is printed under `constants` — the only attribute a function
+    can share its name with is a `constants` entry, and in the universe of the driver every such entry is `constLike`.) -/
 theorem C17_type_inithash_partial {env : List OType} {d : Def} {l : Level} {p : OType} (hd : DefShape d)
-    (h : define env d = .ok (l :: p)) (hu : ∀ a ∈ l.attrs, a.undefConstant = false) :
+    (h : define env d = .ok (l :: p)) (hu : ∀ a ∈ l.attrs, a.undefConstant = false)
+    (hfk : ∀ f ∈ l.funcs, ∀ a ∈ l.attrs, a.name = f.name → a.constLike = true) :
     define env (typeDef d.parent l) = .ok ({ l with attrs := reorder l.attrs } :: p) :=
-  define_typeDef hd.names hd.constNames h hu
+  define_typeDef hd.names hd.constNames h hu hfk
 
 /-- the re-created type lays out, finds and compares its attributes exactly like the original: same positional attributes,
     required count and equality positions (`attrInfo`), same member lookup — hence the same constructors, `Get`,
@@ -1765,10 +1785,13 @@ theorem C17_type_inithash_same {env : List OType} {d : Def} {l : Level} {p : OTy
     rw [hla, (defineAttrs_ok hattrs).1]; exact decls_nodup hd.names hd.constNames hboth
   have hai := attrInfo_reorder (l' := { l with attrs := reorder l.attrs }) (p := p) hnd rfl rfl rfl
   have hfa := fun n => findAttr_reorder (l' := { l with attrs := reorder l.attrs }) (p := p) hnd rfl n
+  have hma : ∀ n, memberAttr ({ l with attrs := reorder l.attrs } :: p) n = memberAttr (l :: p) n := by
+    intro n
+    simp only [memberAttr, find_reorder hnd]
   refine ⟨hai, hfa, ?_, ?_⟩
   · intro vs n
     unfold get
-    simp only [hai, hfa]
+    simp only [hai, hma]
   · intro vs
     unfold initHash
     simp only [hai]
@@ -1785,7 +1808,7 @@ def undefConstLevel : Level :=
 theorem C17_type_inithash_constant_undef : ¬ C17_type_inithash := by
   intro h
   have h1 : define [] undefConstDef = .ok [undefConstLevel] := by decide
-  have h2 := h [] undefConstDef undefConstLevel [] ⟨by decide, by decide⟩ h1
+  have h2 := h [] undefConstDef undefConstLevel [] ⟨by decide, by decide⟩ h1 (by decide)
   have h3 : define [] (typeDef undefConstDef.parent undefConstLevel) = .error .constantRequiresValue := by decide
   rw [h3] at h2
   cases h2
@@ -1940,7 +1963,7 @@ example : WellFormedDef [] (sampleDefs.headD default) := by
   · intro a ha
     rw [hdecls] at ha
     simp only [List.mem_cons, List.not_mem_nil, or_false] at ha
-    rcases ha with rfl | rfl <;> simp [OverrideOK, parentOf, findAttr, sampleDefs]
+    rcases ha with rfl | rfl <;> simp [OverrideOK, parentOf, findAttr, fnShadow, sampleDefs]
   · intro as has n hn
     have : as = [{ name := "a", ty := .int, kind := .normal, value := none },
                  { name := "k", ty := .int, kind := .constant, value := some (.int 7), final := true }] := by
